@@ -33,6 +33,19 @@ pub fn gen_cases(table: &Table, bound: u32, max_stmts: usize, depth: u32, cap: u
     (cases, stats)
 }
 
+/// registers mentioned (as raw registers, after aliases_to_raw) anywhere in a block
+pub fn regs_mentioned(block: &truth::ast::Block) -> BTreeSet<i32> {
+    struct V(BTreeSet<i32>);
+    impl truth::ast::Visit for V {
+        fn visit_var(&mut self, v: &truth::Sp<truth::ast::Var>) {
+            if let truth::ast::VarName::Reg { reg, .. } = &v.name { self.0.insert(reg.0); }
+        }
+    }
+    let mut v = V(BTreeSet::new());
+    truth::ast::Visit::visit_block(&mut v, block);
+    v.0
+}
+
 /// Check one body under one (table, pool).  `c05` adds the register-set oracle failures.
 pub fn check_case(table: &Table, mapfile: &str, case: &Case, pool: (usize, usize), vals: &[Valuation], which: &str) -> CaseResult {
     let mut res = CaseResult { outcome: String::new(), nontrivial: false, failures: vec![], executions: 0, traces: 0, discards: vec![] };
@@ -46,6 +59,7 @@ pub fn check_case(table: &Table, mapfile: &str, case: &Case, pool: (usize, usize
         // (the *source* side below still runs the unsimplified block, so folding bugs show up as behaviour changes)
         let mut simplified = block.clone();
         if let Err(d) = tl::const_simplify(truth, &mut simplified) { return ("rejected:const_simplify".into(), None, d); }
+        let regs_after_folding = regs_mentioned(&simplified);
         let hooks = make_language(&Pool { ints: pool.0, floats: pool.1 }, true);
         if let Err(d) = tl::validate_difficulty(truth, &hooks, &simplified) { return ("rejected:validate_difficulty".into(), None, d); }
         let desugared = match desugar(truth, &simplified) { Ok(b) => b, Err(d) => return ("rejected:desugar".into(), None, d) };
@@ -64,14 +78,14 @@ pub fn check_case(table: &Table, mapfile: &str, case: &Case, pool: (usize, usize
                 runs.push((vi, d, src, rz));
             }
         }
-        ("compiled".into(), Some((instrs, raised.err(), runs)), String::new())
+        ("compiled".into(), Some((instrs, raised.err(), runs, regs_after_folding)), String::new())
     }));
     let (outcome, data, diag) = match r {
         Ok(x) => x,
         Err(p) => { res.outcome = format!("compile-panic"); res.discards.push(p.signature()); return res; }
     };
     res.outcome = outcome.clone();
-    let Some((instrs, raise_err, runs)) = data else {
+    let Some((instrs, raise_err, runs, regs_after_folding)) = data else {
         if outcome == "rejected:lower" {
             // classify
             let class = if diag.contains("too complex") || diag.contains("no more registers") || diag.contains("scratch") { "lower:no-registers" }
@@ -117,7 +131,12 @@ pub fn check_case(table: &Table, mapfile: &str, case: &Case, pool: (usize, usize
             },
             Ok(m1) => {
                 if let Some(diff) = compare_traces_ex(&src, &m1, &cmp_regs, time_observable, time_observable) {
-                    res.failures.push(Failure { signature: format!("{which}:behaviour:{}", case.body), detail: detail(json!({"valuation": vi, "difficulty": d, "diff": diff, "oracle": "AstVm(source) vs M1(emitted)", "instrs": fmt_instrs(&instrs)})) });
+                    // a register the source mentions only in code that constant folding removes (the dead arm of `1 ? a : b`) is not
+                    // seen by the scratch allocator: a separate, narrowly identified finding
+                    let folded_away = diff.strip_prefix("register ").and_then(|r| r.split(' ').next()).and_then(|r| r.parse::<i32>().ok())
+                        .map(|r| case.model.regs.contains(&r) && !regs_after_folding.contains(&r)).unwrap_or(false);
+                    let sig = if folded_away { format!("{which}:scratch-register-mentioned-only-in-constant-folded-code") } else { format!("{which}:behaviour:{}", case.body) };
+                    res.failures.push(Failure { signature: sig, detail: detail(json!({"valuation": vi, "difficulty": d, "diff": diff, "oracle": "AstVm(source) vs M1(emitted)", "instrs": fmt_instrs(&instrs), "registers_mentioned_after_constant_folding": regs_after_folding})) });
                     break;
                 }
             }
@@ -130,7 +149,9 @@ pub fn check_case(table: &Table, mapfile: &str, case: &Case, pool: (usize, usize
                 break;
             } }
             if let Some(diff) = compare_traces_ex(&src, &rz, &cmp_regs, time_observable, time_observable) {
-                res.failures.push(Failure { signature: format!("{which}:behaviour-raised:{}", case.body), detail: detail(json!({"valuation": vi, "difficulty": d, "diff": diff, "oracle": "AstVm(source) vs AstVm(raise(emitted))", "instrs": fmt_instrs(&instrs)})) });
+                let folded_away = diff.strip_prefix("register ").and_then(|r| r.split(' ').next()).and_then(|r| r.parse::<i32>().ok())
+                    .map(|r| case.model.regs.contains(&r) && !regs_after_folding.contains(&r)).unwrap_or(false);
+                res.failures.push(Failure { signature: if folded_away { format!("{which}:scratch-register-mentioned-only-in-constant-folded-code") } else { format!("{which}:behaviour-raised:{}", case.body) }, detail: detail(json!({"valuation": vi, "difficulty": d, "diff": diff, "oracle": "AstVm(source) vs AstVm(raise(emitted))", "instrs": fmt_instrs(&instrs)})) });
                 break;
             }
         }
